@@ -43,7 +43,7 @@ pub fn candidates(prop: &str) -> Vec<Value> {
             }}}}
         }
         "C02" => {
-            for g in ["G1", "G2"] { for s in schemes() { for kind in ["honest_edge_msgs", "neg_sig", "sig_plus_g", "double_sig", "other_msg", "truncated_msg", "other_key", "pk_plus_g", "neg_pk", "relabel", "identity_both", "sum_valid"] {
+            for g in ["G1", "G2"] { for s in schemes() { for kind in ["honest_edge_msgs", "neg_sig", "sig_plus_g", "double_sig", "other_msg", "truncated_msg", "other_key", "pk_plus_g", "neg_pk", "relabel", "identity_both", "sum_valid", "ietf_reference"] {
                 v.push(json!({"call": "perturbed_verify", "group": g, "scheme": scheme_name(s), "kind": kind}));
             }}}
         }
@@ -56,9 +56,10 @@ pub fn candidates(prop: &str) -> Vec<Value> {
             for g in ["G1", "G2"] { for k in 0..5 { for kind in ["own", "other_key", "neg", "plus_g"] {
                 v.push(json!({"call": "pop", "group": g, "key": k, "kind": kind}));
             }}}
+            for g in ["G1", "G2"] { v.push(json!({"call": "pop_low_order", "group": g})); }
         }
         "C05" => {
-            for g in ["G1", "G2"] { for k in 0..5 { for kind in ["pop_as_signature", "signature_as_pop", "pops_as_aggregate", "relabel_all", "multi_relabel", "pok_relabel", "ciphertext_relabel"] {
+            for g in ["G1", "G2"] { for k in 0..5 { for kind in ["pop_as_signature", "signature_as_pop", "pops_as_aggregate", "relabel_all", "multi_relabel", "pok_relabel", "pok_ts_relabel", "ciphertext_relabel"] {
                 v.push(json!({"call": "domain_sep", "group": g, "key": k, "kind": kind}));
             }}}
         }
@@ -98,7 +99,7 @@ pub fn candidates(prop: &str) -> Vec<Value> {
             }}}
         }
         "C13" => {
-            for g in ["G1", "G2"] { for s in schemes() { for kind in ["round_trip", "wrong_id", "wrong_key", "wrong_scheme", "identity_sig", "flip_u", "flip_v", "flip_w_prefix", "flip_w_prefix_all_bits", "flip_padding", "extend_padding", "empty_w"] {
+            for g in ["G1", "G2"] { for s in schemes() { for kind in ["round_trip", "wrong_id", "wrong_key", "wrong_scheme", "identity_sig", "flip_u", "flip_v", "flip_w_prefix", "flip_w_prefix_all_bits", "flip_padding", "extend_padding", "empty_w", "threshold_quorums"] {
                 v.push(json!({"call": "timelock", "group": g, "scheme": scheme_name(s), "kind": kind}));
             }}}
         }
@@ -122,7 +123,7 @@ pub fn candidates(prop: &str) -> Vec<Value> {
             }}}
         }
         "C10" => {
-            for g in ["G1", "G2"] { for s in schemes() { for kind in ["complete", "other_challenge", "other_msg", "other_key", "tamper_u", "tamper_v", "forged_id_response", "ts_no_timeout", "ts_within", "ts_huge_timeout", "ts_elapsed", "ts_altered", "ts_future", "ts_max"] {
+            for g in ["G1", "G2"] { for s in schemes() { for kind in ["complete", "other_challenge", "other_msg", "other_key", "tamper_u", "tamper_v", "forged_id_response", "ts_no_timeout", "ts_within", "ts_huge_timeout", "ts_elapsed", "ts_altered", "ts_future", "ts_max", "ts_future_consistent"] {
                 v.push(json!({"call": "pok", "group": g, "scheme": scheme_name(s), "kind": kind}));
             }}}
         }
@@ -144,6 +145,7 @@ pub fn run(c: &Value) -> Option<String> {
         "perturbed_verify" => by_group!(c, perturbed_verify),
         "identity_inputs" => by_group!(c, identity_inputs),
         "pop" => by_group!(c, pop),
+        "pop_low_order" => if c["group"] == "G1" { pop_low_order_g1() } else { pop_low_order_g2() },
         "domain_sep" => by_group!(c, domain_sep),
         "aggregate" => by_group!(c, aggregate),
         "multi" => by_group!(c, multi),
@@ -200,6 +202,21 @@ fn perturbed_verify<C: BlsSignatureImpl + PartialEq>(c: &Value, keys: &[SecretKe
             for mm in msgs() {
                 let sg = match sk.sign(s, &mm) { Ok(x) => x, Err(e) => return Some(format!("sign failed for a message of length {}: {}", mm.len(), e)) };
                 if let Err(e) = sg.verify(&pk, &mm) { return Some(format!("the one valid signature is rejected for a message of length {}: {}", mm.len(), e)); }
+            }
+            None
+        }
+        "ietf_reference" => {
+            // the draft's signature, computed with core_sign over the draft's message form under the scheme's tag:
+            // m (Basic, PoP), PK || m (AUG) — it is the one element the library accepts, and what the library signs
+            for mm in msgs().into_iter().take(12) {
+                let (dst, framed): (&[u8], Vec<u8>) = match s {
+                    SignatureSchemes::Basic => (<C as BlsSignatureBasic>::DST, mm.clone()),
+                    SignatureSchemes::MessageAugmentation => (<C as BlsSignatureMessageAugmentation>::DST, [Vec::<u8>::from(&pk), mm.clone()].concat()),
+                    SignatureSchemes::ProofOfPossession => (<C as BlsSignaturePop>::SIG_DST, mm.clone()),
+                };
+                let reference = <C as BlsSignatureCore>::core_sign(&sk.0, framed.as_slice(), dst).ok()?;
+                if let Err(e) = mk::<C>(s, reference).verify(&pk, &mm) { return Some(format!("the draft's {} signature of a {}-byte message is rejected: {}", scheme_name(s), mm.len(), e)); }
+                if sig_pt(&sk.sign(s, &mm).ok()?) != reference { return Some(format!("the library's {} signature of a {}-byte message is not the draft's", scheme_name(s), mm.len())); }
             }
             None
         }
@@ -356,6 +373,20 @@ fn domain_sep<C: BlsSignatureImpl + PartialEq + Copy>(c: &Value, keys: &[SecretK
                 for s2 in schemes() { if s2 != s {
                     let q = match s2 { SignatureSchemes::Basic => MultiSignature::<C>::Basic(pt), SignatureSchemes::MessageAugmentation => MultiSignature::MessageAugmentation(pt), _ => MultiSignature::ProofOfPossession(pt) };
                     if q.verify(mpk, &m).is_ok() { return Some(format!("a {} multi-signature verifies under the label {}", scheme_name(s), scheme_name(s2))); }
+                } }
+            }
+            None
+        }
+        "pok_ts_relabel" => {
+            for s in [SignatureSchemes::Basic, SignatureSchemes::ProofOfPossession] {
+                let sg = sk.sign(s, &m).ok()?;
+                let p = ProofOfKnowledgeTimestamp::<C>::generate(&m, sg).ok()?;
+                if let Err(e) = p.verify(pk, &m, None) { return Some(format!("honest {} timestamp proof rejected: {}", scheme_name(s), e)); }
+                let (u, v) = match p.proof { ProofOfKnowledge::Basic { u, v } => (u, v), ProofOfKnowledge::MessageAugmentation { u, v } => (u, v), ProofOfKnowledge::ProofOfPossession { u, v } => (u, v) };
+                for s2 in schemes() { if s2 != s {
+                    let q = match s2 { SignatureSchemes::Basic => ProofOfKnowledge::<C>::Basic { u, v }, SignatureSchemes::MessageAugmentation => ProofOfKnowledge::MessageAugmentation { u, v }, _ => ProofOfKnowledge::ProofOfPossession { u, v } };
+                    let r = ProofOfKnowledgeTimestamp::<C> { proof: q, timestamp: p.timestamp };
+                    if r.verify(pk, &m, None).is_ok() { return Some(format!("a {} timestamp proof of knowledge verifies under the label {}", scheme_name(s), scheme_name(s2))); }
                 } }
             }
             None
@@ -533,6 +564,23 @@ fn pok<C: BlsSignatureImpl + PartialEq + Copy>(c: &Value, keys: &[SecretKey<C>])
     let kind = c["kind"].as_str().unwrap();
     if kind.starts_with("ts_") {
         let p = match ProofOfKnowledgeTimestamp::<C>::generate(&m, sig) { Ok(p) => p, Err(e) => return Some(format!("generate failed: {}", e)) };
+        if kind == "ts_future_consistent" {
+            // a proof whose challenge was derived FOR a future timestamp (the holder of a signature can do that):
+            // with a timeout it must be refused — its remaining lifetime would otherwise exceed the timeout
+            if s == SignatureSchemes::MessageAugmentation { return None; }
+            let now = std::time::SystemTime::now().duration_since(std::time::UNIX_EPOCH).ok()?.as_millis() as u64;
+            for ahead in [3_600_000u64, 86_400_000, u64::MAX - now] {
+                let t = now + ahead;
+                let (comm, x) = ProofCommitment::<C>::generate(&m, sig).ok()?;
+                let u = match comm { ProofCommitment::Basic(u) | ProofCommitment::MessageAugmentation(u) | ProofCommitment::ProofOfPossession(u) => u };
+                let y = ProofCommitmentChallenge::<C>(<C as BlsSignatureProof>::compute_y(u, t));
+                let proof = comm.finalize(x, y, sig).ok()?;
+                let q = ProofOfKnowledgeTimestamp::<C> { proof, timestamp: t };
+                if q.verify(pk, &m, None).is_err() { return Some("a proof with a consistent future timestamp is rejected even without a timeout".into()); }
+                if q.verify(pk, &m, Some(1000)).is_ok() { return Some(format!("a proof dated {} ms ahead passes a 1000 ms timeout", ahead)); }
+            }
+            return None;
+        }
         return match kind {
             "ts_no_timeout" => if let Err(e) = p.verify(pk, &m, None) { Some(format!("timestamp proof rejected without timeout: {}", e)) } else { None },
             "ts_huge_timeout" => { for tt in [u64::MAX, u64::MAX - 1, u64::MAX - 1_000_000, u64::MAX / 2, 1u64 << 63] { if let Err(e) = p.verify(pk, &m, Some(tt)) { return Some(format!("fresh timestamp proof rejected within the timeout {}: {}", tt, e)); } } None }
@@ -684,6 +732,30 @@ fn timelock<C: BlsSignatureImpl + PartialEq + Copy>(c: &Value, keys: &[SecretKey
             let sg = sk.sign(s, &idv).ok()?;
             match Option::<Vec<u8>>::from(ct.decrypt(&sg)) { Some(p) if p == m => {}, Some(_) => return Some(format!("opens to another message (len {})", l)), None => return Some(format!("the signature over the identifier does not open the ciphertext (message length {}, id length {})", l, idv.len())) }
         }}
+        return None;
+    }
+    if kind == "threshold_quorums" {
+        // the signature recombined from EXACTLY t partial signatures (every quorum of a 3-of-5 and a 2-of-3 sharing,
+        // every order of the first quorum) opens the ciphertext; fewer than t shares do not
+        use rand_core::SeedableRng;
+        if s == SignatureSchemes::MessageAugmentation { return None; }     // shares cannot sign under this scheme
+        let m = b"threshold time lock".to_vec();
+        let ct = pk.encrypt_time_lock(s, &m, &id).ok()?;
+        for (t, n) in [(3usize, 5usize), (2, 3)] {
+            let sh = sk.split_with_rng(t, n, rand_chacha::ChaCha20Rng::from_seed([11u8; 32])).ok()?;
+            let ps: Vec<SignatureShare<C>> = sh.iter().map(|x| x.sign(s, &id).unwrap()).collect();
+            let idx: Vec<usize> = (0..n).collect();
+            let mut quorums: Vec<Vec<usize>> = vec![];
+            if t == 3 { for a in 0..n { for b in 0..n { for c3 in 0..n { if a != b && b != c3 && a != c3 { quorums.push(vec![a, b, c3]); } } } } }
+            else { for a in 0..n { for b in 0..n { if a != b { quorums.push(vec![a, b]); } } } }
+            let _ = idx;
+            for q in quorums {
+                let sel: Vec<SignatureShare<C>> = q.iter().map(|&i| ps[i].clone()).collect();
+                let sg = match Signature::<C>::from_shares(&sel) { Ok(x) => x, Err(e) => return Some(format!("{} partial signatures of a {}-of-{} sharing (participants {:?}) are refused: {}", t, t, n, q, e)) };
+                match Option::<Vec<u8>>::from(ct.decrypt(&sg)) { Some(p) if p == m => {}, _ => return Some(format!("the signature recombined from exactly {} of {} shares (participants {:?}) does not open the ciphertext", t, n, q)) }
+            }
+            if let Ok(sg) = Signature::<C>::from_shares(&ps[..t - 1]) { if Option::<Vec<u8>>::from(ct.decrypt(&sg)).is_some() { return Some(format!("{} shares of a {}-of-{} sharing open the ciphertext", t - 1, t, n)); } }
+        }
         return None;
     }
     let m = b"the launch codes".to_vec();
@@ -873,4 +945,43 @@ fn shares<C: BlsSignatureImpl + PartialEq + Copy>(c: &Value, keys: &[SecretKey<C
             None
         }
     }
+}
+
+/// a proof of possession that arrives as bytes, shifted by a point of the curve OUTSIDE the prime-order group (order
+/// dividing the cofactor): the pairing equation cannot see the shift, only the subgroup check of the decoder stops it
+fn pop_low_order_g1() -> Option<String> {
+    let mut t = None;
+    for x in 1u8..=255 {
+        let mut enc = [0u8; 48]; enc[0] = 0x80; enc[47] = x;
+        let p: Option<G1Projective> = G1Projective::from_compressed_unchecked(&enc).into();
+        if let Some(p) = p { if !bool::from(G1Affine::from(p).is_torsion_free()) { let q = p * (-Scalar::ONE) + p; if !bool::from(q.is_identity()) { t = Some(q); break; } } }
+    }
+    let t = t?;
+    for seed in [b"low order 1".as_slice(), b"low order 2".as_slice()] {
+        let sk = SecretKey::<G1>::from_hash(seed); let pk = sk.public_key();
+        let pop = sk.proof_of_possession().ok()?;
+        let altered = (pop.0 + t).to_compressed();
+        if let Ok(p) = ProofOfPossession::<G1>::try_from(altered.as_slice()) {
+            if p.verify(pk).is_ok() { return Some("a proof of possession shifted by a low-order point (sent as bytes) decodes and verifies".into()); }
+        }
+    }
+    None
+}
+fn pop_low_order_g2() -> Option<String> {
+    let mut t = None;
+    for x in 1u8..=255 {
+        let mut enc = [0u8; 96]; enc[0] = 0x80; enc[95] = x;
+        let p: Option<G2Projective> = G2Projective::from_compressed_unchecked(&enc).into();
+        if let Some(p) = p { if !bool::from(G2Affine::from(p).is_torsion_free()) { let q = p * (-Scalar::ONE) + p; if !bool::from(q.is_identity()) { t = Some(q); break; } } }
+    }
+    let t = t?;
+    for seed in [b"low order 1".as_slice(), b"low order 2".as_slice()] {
+        let sk = SecretKey::<G2>::from_hash(seed); let pk = sk.public_key();
+        let pop = sk.proof_of_possession().ok()?;
+        let altered = (pop.0 + t).to_compressed();
+        if let Ok(p) = ProofOfPossession::<G2>::try_from(altered.as_slice()) {
+            if p.verify(pk).is_ok() { return Some("a proof of possession shifted by a low-order point (sent as bytes) decodes and verifies".into()); }
+        }
+    }
+    None
 }
